@@ -695,6 +695,92 @@ Qed.
 Theorem wheel_not_late : forall T, lo T <= T.
 Proof. intros T. unfold lo. apply N.le_sub_l. Qed.
 
+(* ---- no time lock: from every state finitely many local steps lead to a state in which the clock can tick ---- *)
+Definition rank (k : call) : nat :=
+  match k_pc k with Init => 8 | Pre => 7 | Reg => 6 | Dialing => 5 | Enq => 4 | Waiting => 3 | Done => 2 | Cleaned => 1 | Returned => 0 end.
+Definition rrank (x : rcv) : nat := match r_pc x with RNew => 2 | RFound _ => 1 | RDone => 0 end.
+Fixpoint total {A} (f : A -> nat) (l : list A) : nat := match l with [] => 0 | x :: t => f x + total f t end.
+Definition mu (s : state) : nat := total rank (calls s) + total rrank (rcvs s).
+
+Lemma total_upd : forall A (f : A -> nat) l i k x, nth_error l i = Some k -> (total f (upd l i x) + f k = total f l + f x)%nat.
+Proof.
+  induction l as [|h t IH]; intros [|i] k x H; cbn in *; try discriminate.
+  - inversion H; subst. lia.
+  - specialize (IH _ _ x H). lia.
+Qed.
+
+Lemma existsb_nth : forall A (f : A -> bool) l, existsb f l = true -> exists i x, nth_error l i = Some x /\ f x = true.
+Proof.
+  intros A f l H. apply existsb_exists in H. destruct H as [x [Hin Hf]]. apply In_nth_error in Hin. destruct Hin as [i Hi]. eauto.
+Qed.
+
+Lemma lo_le : forall T, lo T <= T.
+Proof. intros T. unfold lo. apply N.le_sub_l. Qed.
+
+Lemma urgent_step : forall c s, urgent c s = true ->
+  exists l s', l <> Tick /\ step c s l = Some s' /\ (mu s' < mu s)%nat /\ now s' = now s.
+Proof.
+  intros c s Hu. unfold urgent in Hu. apply orb_true_iff in Hu. destruct Hu as [Hu|Hu].
+  - apply existsb_nth in Hu. destruct Hu as [i [k [Hk Hc]]]. unfold call_urgent in Hc.
+    pose proof (fun x => total_upd _ rank (calls s) i k x Hk) as Hm. unfold rank at 2 in Hm.
+    destruct (k_pc k) eqn:Hp; try discriminate.
+    + exists (LPre i). eexists. cbn [step]. rewrite Hk, Hp. split; [discriminate|]. split; [reflexivity|]. unfold mu; cbn [calls rcvs now].
+      specialize (Hm (set_pc k Pre)). cbn in Hm. split; [lia|reflexivity].
+    + destruct (qmax c <? queueLen s)%Z eqn:Hq.
+      * exists (LQueueFull i). eexists. cbn [step]. rewrite Hk, Hp, Hq. split; [discriminate|]. split; [reflexivity|]. unfold mu, with_calls; cbn [calls rcvs now].
+        specialize (Hm (set_full k)). cbn in Hm. split; [lia|reflexivity].
+      * exists (LReg i). eexists. cbn [step]. rewrite Hk, Hp, Hq. split; [discriminate|]. split; [reflexivity|]. unfold mu; cbn [calls rcvs now].
+        specialize (Hm (set_pc k Reg)). cbn in Hm. split; [lia|reflexivity].
+    + destruct (lock s) eqn:Hl; [discriminate|]. exists (LLock i). destruct (conn_open s) eqn:Ho.
+      * eexists. cbn [step]. rewrite Hk, Hl, Hp, Ho. split; [discriminate|]. split; [reflexivity|]. unfold mu, with_calls; cbn [calls rcvs now].
+        specialize (Hm (set_lock k Enq (now s) false)). cbn in Hm. split; [lia|reflexivity].
+      * eexists. cbn [step]. rewrite Hk, Hl, Hp, Ho. split; [discriminate|]. split; [reflexivity|]. unfold mu; cbn [calls rcvs now].
+        specialize (Hm (set_lock k Dialing (now s) true)). cbn in Hm. split; [lia|reflexivity].
+    + exists (LDialTimeout i). eexists. cbn [step]. rewrite Hk, Hp, Hc. split; [discriminate|]. split; [reflexivity|]. unfold mu; cbn [calls rcvs now].
+      specialize (Hm (set_out k Error (k_e k))). cbn in Hm. split; [lia|reflexivity].
+    + destruct (N.of_nat (length (sendq s)) <? qcap c) eqn:Hr.
+      * exists (LEnq i). eexists. cbn [step]. rewrite Hk, Hp, Hr. split; [discriminate|]. split; [reflexivity|]. unfold mu; cbn [calls rcvs now].
+        specialize (Hm (set_enq k (k_t0 k <? now s))). cbn in Hm. split; [lia|reflexivity].
+      * cbn [orb] in Hc. apply andb_true_iff in Hc. destruct Hc as [Hw Hd].
+        assert (Hg : (0 <? writeT c) && (k_t0 k + lo (writeT c) <=? now s) = true).
+        { rewrite Hw. cbn [andb]. pose proof (lo_le (writeT c)). lia. }
+        exists (LEnqTimeout i). eexists. cbn [step]. rewrite Hk, Hp, Hg. split; [discriminate|]. split; [reflexivity|]. unfold mu, with_calls; cbn [calls rcvs now].
+        specialize (Hm (set_out k Error true)). cbn in Hm. split; [lia|reflexivity].
+    + exists (LCtxFire i). eexists. cbn [step]. rewrite Hk, Hp, Hc. split; [discriminate|]. split; [reflexivity|]. unfold mu, with_calls; cbn [calls rcvs now].
+      specialize (Hm (set_out k Timeout (k_e k))). cbn in Hm. split; [lia|reflexivity].
+    + exists (LClean i). eexists. cbn [step]. rewrite Hk, Hp. split; [discriminate|]. split; [reflexivity|]. unfold mu; cbn [calls rcvs now].
+      specialize (Hm (set_pc k Cleaned)). cbn in Hm. split; [lia|reflexivity].
+    + exists (LPost i). eexists. cbn [step]. rewrite Hk, Hp. split; [discriminate|]. split; [reflexivity|]. unfold mu; cbn [calls rcvs now].
+      specialize (Hm (set_ret k (now s))). cbn in Hm. split; [lia|reflexivity].
+  - apply existsb_nth in Hu. destruct Hu as [r [x [Hx Hc]]]. unfold rcv_urgent in Hc.
+    pose proof (fun y => total_upd _ rrank (rcvs s) r x y Hx) as Hm. unfold rrank at 2 in Hm.
+    destruct (r_pc x) as [|j|] eqn:Hp; try discriminate.
+    + exists (LLookup r). cbn [step]. rewrite Hx, Hp. destruct (call_of (r_id x)) as [j|]; [destruct (memb j (resp s))|];
+        eexists; (split; [discriminate|]); (split; [reflexivity|]); unfold mu, with_rcvs; cbn [calls rcvs now];
+        match goal with |- context [upd (rcvs s) r ?y] => specialize (Hm y) end; cbn in Hm; (split; [lia|reflexivity]).
+    + destruct (is_waiting s j) eqn:Hw.
+      * unfold is_waiting in Hw. destruct (nth_error (calls s) j) as [k|] eqn:Hk; [|discriminate]. destruct (k_pc k) eqn:Hpk; try discriminate.
+        pose proof (total_upd _ rank (calls s) j k (set_out k (Reply (r_pay x)) (k_e k)) Hk) as Hmk. unfold rank at 2 in Hmk. rewrite Hpk in Hmk. cbn in Hmk.
+        exists (LDeliver r). eexists. cbn [step]. rewrite Hx, Hp, Hk, Hpk. split; [discriminate|]. split; [reflexivity|]. unfold mu; cbn [calls rcvs now].
+        match goal with |- context [upd (rcvs s) r ?y] => specialize (Hm y) end. cbn in Hm. split; [lia|reflexivity].
+      * cbn [orb] in Hc.
+        assert (Hg : (r_t0 x + lo (readT c) <=? now s) = true) by (pose proof (lo_le (readT c)); lia).
+        exists (LGiveUp r). eexists. cbn [step]. rewrite Hx, Hp, Hg. split; [discriminate|]. split; [reflexivity|]. unfold mu, with_rcvs; cbn [calls rcvs now].
+        match goal with |- context [upd (rcvs s) r ?y] => specialize (Hm y) end. cbn in Hm. split; [lia|reflexivity].
+Qed.
+
+Theorem no_timelock : forall c s, exists ls s',
+  run c s ls = Some s' /\ now s' = now s /\ ~ In Tick ls /\ step c s' Tick <> None.
+Proof.
+  intros c s. remember (mu s) as m eqn:Hm. revert s Hm. induction m as [m IH] using lt_wf_ind. intros s Hm.
+  destruct (urgent c s) eqn:Hu.
+  - destruct (urgent_step c s Hu) as [l [s1 [Hl [Hs [Hlt Hn]]]]].
+    destruct (IH (mu s1) ltac:(lia) s1 eq_refl) as [ls [s' [Hr [Hn' [Hni Ht]]]]].
+    exists (l :: ls), s'. cbn [run]. rewrite Hs. repeat split; auto; [congruence|].
+    intros [A|A]; [congruence|contradiction].
+  - exists [], s. cbn. repeat split; auto. rewrite Hu. discriminate.
+Qed.
+
 (* ---- non-vacuity: concrete reachable runs ---- *)
 Example silent_peer_times_out :
   let '(s, _, ok) := canonical (mkscen (mkcfg 30 40 10 4 100000) CAccept [mkact false None false false] 1 1 20 0 false) in
